@@ -7,6 +7,7 @@ import (
 
 	"github.com/llir/llvm/asm"
 	"github.com/llir/llvm/ir"
+	"github.com/llir/llvm/ir/value"
 )
 
 // M-Whole descriptors (see lean/LlirModel/Drv/WholeOps.lean): one module with type definitions and globals (M-Core-2 descriptors), a metadata section
@@ -20,10 +21,20 @@ func wholeBuild(a []string) *ir.Module {
 	if err != nil || len(a) != 5+4*n {
 		panic("harness: bad whole-module descriptor")
 	}
+	globals := map[string]value.Value{}
+	for _, g := range m.Globals {
+		globals[g.GlobalName] = g
+	}
+	var finish []func(map[string]value.Value)
 	for i := 0; i < n; i++ {
-		f := core3BuildIn(named, a[5+4*i:9+4*i])
+		f, fin := core3Prepare(named, a[5+4*i:9+4*i])
 		f.Parent = m
 		m.Funcs = append(m.Funcs, f)
+		globals[f.GlobalName] = f
+		finish = append(finish, fin)
+	}
+	for _, fin := range finish {
+		fin(globals)
 	}
 	return m
 }
